@@ -209,9 +209,9 @@ Qed.
 Lemma const_col (c : col) a : nth a (map (fun _ : Z => 0) c) 0 = 0.
 Proof. revert a; induction c as [|v c IH]; intros [|a]; cbn; auto. Qed.
 
-Lemma sub_spec X subs : spec_ok (CSub X subs) (model (CSub X subs)) = true.
+Lemma sub_core X subs : spec_core (CSub X subs) (model (CSub X subs)) = true.
 Proof.
-  cbn [spec_ok model].
+  cbn [spec_core model].
   destruct (shape_ok X && forallb nn3 subs && no_conflict subs) eqn:Hscope; [|reflexivity].
   rewrite !andb_true_iff in Hscope. destruct Hscope as [[Hshape Hnn] Hnc].
   set (B := length (tX X)). set (A := tA X). set (L := tL X).
@@ -602,9 +602,9 @@ Lemma nth_map_lt {U V} (f : U -> V) l i du dv :
   (i < length l)%nat -> nth i (map f l) dv = f (nth i l du).
 Proof. intros H. rewrite nth_indep with (d' := f du) by (rewrite map_length; lia). apply map_nth. Qed.
 
-Lemma del_spec X dels lft : spec_ok (CDel X dels lft) (model (CDel X dels lft)) = true.
+Lemma del_core X dels lft : spec_core (CDel X dels lft) (model (CDel X dels lft)) = true.
 Proof.
-  cbn [spec_ok model].
+  cbn [spec_core model].
   destruct (shape_ok X && (1 <=? length (tX X))%nat && (1 <=? tA X)%nat && forallb nn2 dels) eqn:Hscope;
     [|reflexivity].
   rewrite !andb_true_iff in Hscope. destruct Hscope as [[[Hshape HB] HA] Hnn].
@@ -1016,9 +1016,9 @@ Definition ins_result (A L : nat) (ins : list (Z * Z * Z)) (lft : bool) (ix : na
   let y := weave 0 (snd ix) (insf A (sort_desc (rows_of ins (fst ix))) (fun _ => [])) in
   if lft then (if (L =? 0)%nat then y else skipn (length y - L) y) else firstn L y.
 
-Lemma ins_spec X ins lft : spec_ok (CIns X ins lft) (model (CIns X ins lft)) = true.
+Lemma ins_core X ins lft : spec_core (CIns X ins lft) (model (CIns X ins lft)) = true.
 Proof.
-  cbn [spec_ok model].
+  cbn [spec_core model].
   set (B := length (tX X)). set (A := tA X). set (L := tL X).
   destruct (shape_ok X && forallb nn3 ins && distinct_pos ins
             && forallb (fun x => valid_ohe A L [x]) (tX X)) eqn:Hscope; [|reflexivity].
@@ -1123,7 +1123,7 @@ Lemma del_explicit X dels lft :
       length (nth i Y []) = (tL X - del_total X dels)%nat.
 Proof.
   intros Hshape HB HA Hrows Hmx.
-  pose proof (del_spec X dels lft) as H. cbn [spec_ok model] in H. fold (del_total X dels) in H.
+  pose proof (del_core X dels lft) as H. cbn [spec_core model] in H. fold (del_total X dels) in H.
   assert (H1 : shape_ok X && (1 <=? length (tX X))%nat && (1 <=? tA X)%nat && forallb nn2 dels = true).
   { rewrite Hshape. apply Nat.leb_le in HB, HA. rewrite HB, HA. cbn [andb].
     apply forallb_forall. intros r Hr. destruct (Hrows r Hr). unfold nn2.
@@ -1165,4 +1165,24 @@ Proof.
   destruct (del_explicit X dels' lft Hshape HB HA Hr' Hmx') as [Xb1 [Y1 [E1 [_ [_ H1]]]]].
   rewrite E in E0. injection E0 as <- <-. rewrite E' in E1. injection E1 as <- <-.
   destruct (H0 i Hi) as [_ [-> _]]. destruct (H1 i Hi) as [_ [-> _]]. rewrite HD, Ht. reflexivity.
+Qed.
+
+(* ====================================================================================== *)
+(* the property theorems: scope-independent 'before' clause + the core *)
+
+Lemma sub_spec X subs : spec_ok (CSub X subs) (model (CSub X subs)) = true.
+Proof.
+  unfold spec_ok. rewrite sub_core, andb_true_r. cbn [model before_ok]. unfold substitution_effect.
+  destruct (mapM _ subs); cbn [bind]; [apply batch_eqb_refl | reflexivity].
+Qed.
+
+Lemma del_spec X dels lft : spec_ok (CDel X dels lft) (model (CDel X dels lft)) = true.
+Proof. unfold spec_ok. rewrite del_core. reflexivity. Qed.
+
+Lemma ins_spec X ins lft : spec_ok (CIns X ins lft) (model (CIns X ins lft)) = true.
+Proof.
+  unfold spec_ok. rewrite ins_core, andb_true_r. cbn [model before_ok].
+  unfold insertion_effect, insertion_effect_gen.
+  destruct (guard _); cbn [bind]; [|reflexivity].
+  destruct (mapM _ _); cbn [bind]; [apply batch_eqb_refl | reflexivity].
 Qed.
